@@ -67,7 +67,10 @@ def main(pid, search_fn, replay_fn):
             except Exception as ex:   # harness error: no witness, never a violation by itself
                 sys.stderr.write(f"witness search error for {item['key']}: {type(ex).__name__}: {ex}\n")
                 w = None
-            if w is not None:
+            if w is not None and "known_only" in w:
+                # nothing new, but findings listed in known_findings.json (by witness tag) were observed again
+                results[item["key"]] = dict(found=False, known=sorted(w["known_only"]))
+            elif w is not None:
                 tag = w.pop("tag", None)
                 path = write_replay(pid, item["key"], w)
                 results[item["key"]] = dict(found=True, replay=path, tag=tag)
